@@ -70,24 +70,25 @@ CHECKS = {
 }
 # what was added after the rounds of independently seeded changes (DESIGN.md 0.7)
 EXTRA = {
-    'C01': 'Scenario estab_pfs_same (crossing CREATE_CHILD_SA exchanges with PFS); histories end with DELETE(IKE) and a second IKE_SA negotiated on the same configuration objects.',
-    'C02': 'Eleven re-sealing rewrites (truncated / extended AUTH data, shared-key AUTH under a public secret); impersonation of the responder and of the initiator by an attacker that completes Diffie-Hellman itself (forged AUTH payloads, CREATE_CHILD_SA or INFORMATIONAL instead of IKE_AUTH), with positive controls; both kinds of wrong credential, PSK and RSA.',
+    'C01': 'Scenario estab_pfs_same (crossing CREATE_CHILD_SA exchanges with PFS); histories end with DELETE(IKE) and a second IKE_SA negotiated on the same configuration objects; preference orders include a requester that offers only a subset (what the responder likes least).',
+    'C02': 'Eleven re-sealing rewrites (truncated / extended AUTH data, shared-key AUTH under a public secret); impersonation of the responder and of the initiator by an attacker that completes Diffie-Hellman itself (forged AUTH payloads, CREATE_CHILD_SA or INFORMATIONAL instead of IKE_AUTH), with positive controls; both kinds of wrong credential, PSK and RSA; the genuine message 1 replayed after a rewritten one was answered.',
     'C03': 'The menu includes cleartext chains with unknown critical / skipped payloads and the same forgeries from an address that is not the peer\'s; the snapshot includes the addresses the IKE_SA sends to.',
     'C04': 'Directed peer values and steered sessions whose g^ir starts with a zero octet; key mismatches of the replayed crossing-PFS behaviours of Ike.tla.',
-    'C05': 'Also: the same suite under two proposal numbers, repeated transforms, Nonce payloads of 255 / 256 octets, clear payloads in front of the encrypted payload, every length mutant ParseChain rejects must be rejected, a payload the RFC allows that cannot be built is a violation.',
-    'C06': 'Also the family AttrMutations (raw transform attributes, TV / TLV, every length).',
-    'C08': 'Scenario estab_rekey_ke in the quick tier; recorded random schedules validated by TLC against IkeTrace.tla (binding B).',
+    'C05': 'Also: the same suite under two proposal numbers, repeated transforms, Nonce payloads of 255 / 256 octets, clear payloads in front of the encrypted payload, every length mutant ParseChain rejects must be rejected, a payload the RFC allows that cannot be built is a violation; critical payloads of types the RFC defines but the implementation does not parse.',
+    'C06': 'Also the family AttrMutations (raw transform attributes, TV / TLV, every length) and a time-scaling family (correctly sealed messages with n and 8n elements: parse time must not grow quadratically).',
+    'C07': 'Modified copies of answered and of fresh protected requests are also handed to the real receiving endpoint (no reply, no change).',
+    'C08': 'Scenarios estab_rekey_ke and estab_pfs in the quick tier; recorded random schedules validated by TLC against IkeTrace.tla (binding B).',
     'C09': 'Action TimerIdle (timers due while the IKE_SA is not established, scenario estab_idle); recorded random schedules validated by TLC against IkeTrace.tla (binding B) with the failing clause named.',
     'C10': 'Thorough tier: recorded random schedules validated by TLC (binding B).',
-    'C11': 'RetryGroupOk vectors (every group number suggested by INVALID_KE_PAYLOAD), InitiatorAccepts vectors (the requester\'s check of a CHILD_SA answer), CHILD_SA policies end to end through CREATE_CHILD_SA twice.',
+    'C11': 'RetryGroupOk vectors (every group number suggested by INVALID_KE_PAYLOAD), InitiatorAccepts vectors (the requester\'s check of a CHILD_SA answer), CHILD_SA policies end to end through CREATE_CHILD_SA twice; peer offers with two DH groups and the KE rule (INVALID_KE_PAYLOAD naming the chosen group, then the retry) on CREATE_CHILD_SA.',
     'C13': 'Actions AnswerBusy (TEMPORARY_FAILURE to the rekey; property HardLimitFixed), PeerProbe (requests of the peer while ours is outstanding), Noise (unauthenticated datagrams move no deadline); the sweep is the timer section of the REAL main_loop, entered with scripted sockets.',
     'C14': 'Including tunnels whose selector family differs from the endpoint family.',
     'C15': 'Five protect entries incl. networks of the other family than the tunnel; ACQUIRE while each kind of request is outstanding; IKE_SA lifetime far below the entries\'; divergences right after CtlAcquire in the Ike.tla replay.',
-    'C16': 'Including the adversary scenarios; table / routing divergences and divergences right after CtlExpire belong here whatever caused them; thorough tier: binding B.',
-    'C17': '34 hostile kinds incl. duplicated datagrams, wrong-SPI and unknown-exchange datagrams (sealed / clear / to a half-open initiator IKE_SA), kernel refusals of NEWSA / DELSA, a kernel ACQUIRE towards the legitimate peer at any moment; the legitimate session ends with DELETE(IKE); time passes in the closing phase.',
-    'C18': 'Including the right cookie cut to 0 / 1 / 16 octets or extended, and half-open IKE_SAs that stem from distinct initiators, one replayed request or one SPI with fresh nonces.',
+    'C16': 'Including the adversary scenarios; table / routing / kernel-SAD divergences and divergences right after CtlExpire belong here whatever caused them; thorough tier: binding B.',
+    'C17': '34 hostile kinds incl. duplicated datagrams, wrong-SPI and unknown-exchange datagrams (sealed / clear / to a half-open initiator IKE_SA), kernel refusals of NEWSA / DELSA, a kernel ACQUIRE towards the legitimate peer at any moment, bursts of Wire.tla mutants; the legitimate session ends with DELETE(IKE); time passes in the closing phase.',
+    'C18': 'Including the right cookie cut to 0 / 1 / 16 octets or extended, and half-open IKE_SAs that stem from distinct initiators, one replayed request or one SPI with fresh nonces; the initiator side with a second, different COOKIE.',
     'C19': 'Also ordered pairs of protect entries and two connections (order independence), reload of the same objects after an edit, peers of the other address family, resolvable names as identities.',
-    'C20': 'Also traffic-selector mismatches, kernel refusals at either end, unexpected exceptions; the command line entry point pyikev2.py is executed with and without --verbose (what the default level is); the evidence lists which INFO+ logging statements of the source were executed.',
+    'C20': 'Also hostile identities (format templates), traffic-selector mismatches, kernel refusals at either end, unexpected exceptions; the command line entry point pyikev2.py is executed with and without --verbose (what the default level is); the evidence lists which INFO+ logging statements of the source were executed.',
 }
 REASON_TODO = 'check under construction in this round (not yet registered)'
 
